@@ -29,6 +29,7 @@ func main() {
 	solver2 := flag.String("solver2", "", "second solver for assertion queries")
 	trace := flag.Bool("trace", false, "trace instructions")
 	replay := flag.String("replay", "", "JSON file with {\"harness\":..., \"vars\":{...}}: run concretely in the engine")
+	budget := flag.Int("budget-s", 0, "stop exploring after this many seconds (0 = no limit); the run is then inconclusive unless a violation was found")
 	maxViol := flag.Int("max-violations", 0, "with -keep-going: stop a harness after this many violations (0 = never)")
 	keepGoing := flag.Bool("keep-going", false, "continue after a violation")
 	dump := flag.String("dump", "", "dump queries into this directory")
@@ -72,7 +73,7 @@ func main() {
 		}
 	}
 	opts := interp.Options{Workers: *workers, MaxPaths: *maxPaths, Unwind: *unwind, FeasMs: *feasMs, AssertMs: *assertMs,
-		Solver: *solver, Solver2: *solver2, Trace: *trace, KeepGoing: *keepGoing, MaxViolations: *maxViol, DumpDir: *dump, MaxSteps: *maxSteps, Tier: *tier, Known: map[string]bool{}}
+		Solver: *solver, Solver2: *solver2, Trace: *trace, KeepGoing: *keepGoing, MaxViolations: *maxViol, Deadline: deadlineOf(*budget), DumpDir: *dump, MaxSteps: *maxSteps, Tier: *tier, Known: map[string]bool{}}
 	for _, k := range strings.Split(*known, ",") {
 		if k != "" {
 			opts.Known[k] = true
@@ -137,4 +138,11 @@ func main() {
 func fatal(err error) {
 	fmt.Fprintln(os.Stderr, "symgo:", err)
 	os.Exit(3)
+}
+
+func deadlineOf(sec int) time.Time {
+	if sec <= 0 {
+		return time.Time{}
+	}
+	return time.Now().Add(time.Duration(sec) * time.Second)
 }
